@@ -1,6 +1,7 @@
 package nc
 
 import (
+	"go/types"
 	"fmt"
 	"strings"
 
@@ -53,6 +54,10 @@ func rulesC17(c *Ctx) {
 	R.Rule("R2", "Send, swap-to-send, receive, mint, reclaim custody ordering", 9)
 	R.Rule("R3", "balances are whole-bucket sums", 3)
 	R.Rule("R4", "active-keyset refresh writes the mint entry back", 2)
+	R.Rule("R5", "the wallet's fee functions agree with the mint's: one ceil over the summed per-proof ppk of each proof's own keyset (shared with C18.R3)", 2)
+	R.Rule("R6", "the wallet storage hands out whole buckets: bucket readers return every stored entry, writers store every element", 4)
+	c.ruleWalletFeeFormula("R5")
+	c.c17StorageTotal()
 	c.c17Melt()
 	c.c17Poll()
 	c.c17Others()
@@ -516,6 +521,8 @@ func rulesC18(c *Ctx) {
 	R.Rule("R1", "offline branch: returned only on sum(selected) == amount + fees(selected); exactly those removed", 3)
 	R.Rule("R2", "swap branch: one-to-one matching with removal; fee budget from the synchronised active keyset", 4)
 	R.Rule("R3", "wallet fee function: one ceil over the summed per-proof ppk of each proof's own keyset", 2)
+	R.Rule("R4", "every keyset entry the wallet keeps in memory carries that keyset's fee (from the mint's answer, from storage or from the entry it replaces)", 4)
+	c.c18KeysetEntriesCarryFee()
 
 	if f := c.fn("R1", "wallet.(*Wallet).getProofsForAmount"); f != nil {
 		fk := c.P.FuncKey(f)
@@ -670,8 +677,15 @@ func rulesC18(c *Ctx) {
 		}
 	}
 
+	c.ruleWalletFeeFormula("R3")
+}
+
+// ruleWalletFeeFormula: the wallet's fee functions (C18.R3; shared with C17: an over-estimated fee is value
+// given away, an under-estimated one makes the mint refuse the request).
+func (c *Ctx) ruleWalletFeeFormula(rule string) {
+	R := c.R
 	// R3: fee function
-	if f := c.fn("R3", "wallet.feesForProofs"); f != nil {
+	if f := c.fn(rule, "wallet.feesForProofs"); f != nil {
 		o := c.P.OriginsOf(f)
 		for _, r := range Returns(f) {
 			e := o.Of(r.Results[0])
@@ -693,15 +707,180 @@ func rulesC18(c *Ctx) {
 					}
 				}
 			}
-			R.Check("R3", c.P.FuncKey(f), "fee = ceil(sum of each proof's own keyset ppk / 1000)", c.P.InstrPos(r), ok, "one rounding over the summed ppk of the whole list, each proof charged its own keyset's fee", short(e.String(), 200))
+			R.Check(rule, c.P.FuncKey(f), "fee = ceil(sum of each proof's own keyset ppk / 1000)", c.P.InstrPos(r), ok, "one rounding over the summed ppk of the whole list, each proof charged its own keyset's fee", short(e.String(), 200))
 		}
 	}
-	if f := c.fn("R3", "wallet.feesForCount"); f != nil {
+	if f := c.fn(rule, "wallet.feesForCount"); f != nil {
 		o := c.P.OriginsOf(f)
 		for _, r := range Returns(f) {
 			e := o.Of(r.Results[0])
 			ok := e.K == "bin" && e.S == "/" && isConst(e.Args[1], "1000") && strings.Contains(e.Args[0].String(), "P:keyset.InputFeePpk") && strings.Contains(e.Args[0].String(), "#999")
-			R.Check("R3", c.P.FuncKey(f), "count fee = ceil(count * ppk / 1000)", c.P.InstrPos(r), ok, "the fee for a number of proofs is one rounding over count times the keyset's ppk", short(e.String(), 160))
+			R.Check(rule, c.P.FuncKey(f), "count fee = ceil(count * ppk / 1000)", c.P.InstrPos(r), ok, "the fee for a number of proofs is one rounding over count times the keyset's ppk", short(e.String(), 160))
 		}
+	}
+}
+
+// c17StorageTotal: R6. The balances and the custody rules speak about "the spendable bucket" and "the
+// pending bucket"; they rest on the storage handing out every stored entry and storing every element.
+func (c *Ctx) c17StorageTotal() {
+	R := c.R
+	var impls []types.Type
+	if nt := c.P.NamedType("wallet/storage", "WalletDB"); nt != nil {
+		if it, ok := nt.Underlying().(*types.Interface); ok {
+			impls = c.P.ImplementsIn(it)
+		}
+	}
+	if len(impls) == 0 {
+		R.Unresolved("R6", "wallet storage implementation", "no implementation of WalletDB found")
+		return
+	}
+	for _, t := range impls {
+		// unfiltered readers: every entry of the bucket is appended, except entries that do not decode
+		for _, name := range []string{"GetProofs", "GetPendingProofs"} {
+			f := c.P.MethodOf(t, name)
+			if f == nil {
+				R.Unresolved("R6", name, "method not found on "+typeShort(c.P, t))
+				continue
+			}
+			fk := c.P.FuncKey(f)
+			found := false
+			for _, g := range WithClosures(f) {
+				o := c.P.OriginsOf(g)
+				for _, b := range g.Blocks {
+					for _, in := range b.Instrs {
+						call, ok := in.(*ssa.Call)
+						if !ok {
+							continue
+						}
+						if bi, ok := call.Call.Value.(*ssa.Builtin); !ok || bi.Name() != "append" {
+							continue
+						}
+						l := o.Loops.InnermostContaining(b)
+						if l == nil {
+							continue
+						}
+						found = true
+						cut := NewCut()
+						cut.Barriers[call] = true
+						for _, e := range o.AllEdges() {
+							ft := o.EdgeFact(e)
+							if ft != nil && ft.Kind == "errnil" && !ft.Pos && isCallSuffix(ft.A, "json.Unmarshal") {
+								cut.Edges[e] = true
+							}
+						}
+						okAll, why := true, ""
+						for i, s := range l.Header.Succs {
+							if !l.Blocks[s] {
+								continue
+							}
+							_ = i
+							if reach, path := Reach(Point{s, 0}, Point{l.Header, 0}, cut); reach {
+								okAll = false
+								why = "an entry that decodes can be skipped: " + c.P.PathString(path)
+							}
+						}
+						R.Check("R6", fk, "every stored entry is returned", c.P.InstrPos(call), okAll,
+							"the unfiltered bucket reader appends every entry of the bucket that decodes", why)
+					}
+				}
+			}
+			if !found {
+				R.Check("R6", fk, "every stored entry is returned", c.P.Pos(f.Pos()), false, "the unfiltered bucket reader appends every entry of the bucket", "no append inside a scan of the bucket found")
+			}
+		}
+		// writers: every element of the list is put
+		for _, name := range []string{"SaveProofs", "AddPendingProofsByQuoteId"} {
+			f := c.P.MethodOf(t, name)
+			if f == nil {
+				R.Unresolved("R6", name, "method not found on "+typeShort(c.P, t))
+				continue
+			}
+			fk := c.P.FuncKey(f)
+			found := false
+			for _, g := range WithClosures(f) {
+				o := c.P.OriginsOf(g)
+				for _, ci := range Calls(g) {
+					if !strings.HasSuffix(c.P.Describe(ci).Name, "(*Bucket).Put") {
+						continue
+					}
+					l := o.Loops.InnermostContaining(ci.Block())
+					if l == nil || l.RangeOf == nil {
+						continue
+					}
+					rng := unwrapAnyof(o.Of(l.RangeOf)).String()
+					if rng != "P:"+f.Params[1].Name() {
+						continue
+					}
+					found = true
+					// an iteration reaches the next one only through a successful Put
+					cut := NewCut()
+					for e := range o.AcceptEdges(errNilOf(ci, "entry stored")) {
+						cut.Edges[e] = true
+					}
+					body := l.Header.Succs[l.BodySucc]
+					reach, path := Reach(Point{body, 0}, Point{l.Header, 0}, cut)
+					why := ""
+					if reach {
+						why = "an element can be passed over without being stored: " + c.P.PathString(path)
+					}
+					R.Check("R6", fk, "every element is stored", c.P.InstrPos(ci), !reach, "the writer stores every element of the list it is given (or fails)", why)
+				}
+			}
+			if !found {
+				R.Check("R6", fk, "every element is stored", c.P.Pos(f.Pos()), false, "the writer stores every element of the list it is given", "no Put inside a whole-range loop over the list found")
+			}
+		}
+	}
+}
+
+// c18KeysetEntriesCarryFee: R4. feesForProofs charges each proof the InputFeePpk of the in-memory entry of
+// its keyset (active or inactive). An entry written without the fee makes the wallet compute fee 0 for
+// proofs of that keyset while the mint still charges.
+func (c *Ctx) c18KeysetEntriesCarryFee() {
+	R := c.R
+	isZeroFee := func(e *Ex) bool {
+		// the field of a zero-valued struct: a composite literal that does not set it (an explicit 0, or a
+		// value that may be 0, is a legitimate fee)
+		return e.K == "zero" || (e.K == "field" && e.S == "InputFeePpk" && (e.Args[0].K == "zero" || isConst(e.Args[0], "nil")))
+	}
+	check := func(f *ssa.Function, o *Origins, in ssa.Instruction, v *Ex, what string) {
+		fee := project(v, "InputFeePpk")
+		ok, why := true, ""
+		for _, a := range fee.Alts() {
+			if isZeroFee(a) {
+				ok, why = false, "the entry is written with InputFeePpk = "+short(a.String(), 80)+" (the literal does not set it)"
+			}
+		}
+		R.Check("R4", c.P.FuncKey(f), what, c.P.InstrPos(in), ok, "the keyset entry kept in memory carries the keyset's input fee", why)
+	}
+	n := 0
+	for _, f := range c.P.Funcs {
+		if f.Pkg == nil || c.P.Rel(f.Pkg.Pkg.Path()) != "wallet" {
+			continue
+		}
+		o := c.P.OriginsOf(f)
+		for _, b := range f.Blocks {
+			for _, in := range b.Instrs {
+				switch x := in.(type) {
+				case *ssa.MapUpdate:
+					vt := x.Value.Type()
+					if nt, ok := vt.(*types.Named); !ok || nt.Obj().Name() != "WalletKeyset" {
+						continue
+					}
+					n++
+					check(f, o, in, o.Of(x.Value), "inactive keyset entry carries the fee")
+				case *ssa.Store:
+					fa, ok := x.Addr.(*ssa.FieldAddr)
+					if !ok || fieldName(fa) != "activeKeyset" {
+						continue
+					}
+					n++
+					check(f, o, in, o.Of(x.Val), "active keyset entry carries the fee")
+				}
+			}
+		}
+	}
+	if n == 0 {
+		R.Unresolved("R4", "in-memory keyset entries", "no write of a keyset entry found in the wallet")
 	}
 }
